@@ -203,9 +203,18 @@ def _cut_list(self, I, stmt, st):
         # exit path: the loop is over (any number of iterations), the invariant holds
         s_exit = s.fork()
         out += I.exec_block(stmt.orelse, s_exit) if stmt.orelse else [("next", None, s_exit)]
-        # one arbitrary iteration
-        s2 = s
-        I.assign_target(stmt.target, self.item(I, s2), s2)
+        # one arbitrary iteration (the item callback may return alternatives: a list of element values, one path each)
+        items = self.item(I, s)
+        alts = [(items, s)] if not isinstance(items, list) else [(it, s.fork()) for it in items]
+        for item_value, s2 in alts:
+            out += self._one_list_iteration(I, stmt, s2, item_value)
+    return out
+
+
+def _one_list_iteration(self, I, stmt, s2, item_value):
+    out = []
+    if True:
+        I.assign_target(stmt.target, item_value, s2)
         before = self._snapshot(I, s2)
         fresh_from = next(I._oid)
         allowed = self.modifies(I, s2) if self.modifies else set()
@@ -228,6 +237,7 @@ def _cut_list(self, I, stmt, st):
 
 
 LoopSpec.cut_list = _cut_list
+LoopSpec._one_list_iteration = _one_list_iteration
 
 
 def _same(a, b):
